@@ -1,7 +1,14 @@
 """Property-level plug-ins: obligations that are not per-path function VCs (lemmas over
 contracts, frame analysis, ground checks on shipped data, Lean re-checks)."""
 PLUGINS = {}
-NOT_DECIDED = {}
+NOT_DECIDED = {
+    "C04": ["lossless pre-filter in floating point: floats are treated as reals (radius sqrt(2)*k exact)"],
+    "C08": ["that rapidfuzz's number is the minimum-weight edit script (C++ extension; assumed contract)"],
+    "C11": ["independence from process schedules: reduced to the assumed contract of multiprocessing.Pool.map",
+            "max_returns = m clause: rapidfuzz extract(limit=) and sorted()[:limit] are not modelled (max_returns is None in the verified domain)"],
+    "C14": ["nearest_neighbor_tcrdist: pwseqdist is not installed; the TCRdist part is outside the functions under contract"],
+    "C06": ["the multinomial factorial-moment identity is an assumed axiom about the sampling model (bounded exact validation reported)"],
+}
 
 
 def plugin(*props):
